@@ -18,7 +18,7 @@ META = {
         'and counter updates, visit pairs in distance order and count accepted pairs only; C04.DEDUP-WRAP - a point is entered at most '
         'once per cell, out-of-range cell numbers wrap around the RA circle and the margin loops of getbounds can step to -1 / nRa so '
         'that they do. C04.SEAM - at least one of the two cooperating guards that keep the RA 0/360 seam away from the cells is present; C04.GCIRC - the separation is the haversine great-circle formula (shared with C18). C04.GRID - the declination bounds have exact end points (the code compares them with +-90 and takes their cosine), nRa[i] is final before raBounds[i] is laid out, cosDecMin compares absolute values, friendsoffriends groups every non-empty chunk; C04.APPEND-ONLY - the candidate loop only appends to the pair lists before the global distance sort. NOT decided: completeness of the spatial hash near poles and chunk edges, maximality of the greedy selection.'),
-    'floors': {'C04.GRID': 4, 'C04.APPEND-ONLY': 1, 'C04.CELL-AGREE': 2, 'C04.ROT-AGREE': 2, 'C04.MARGIN': 2, 'C04.ALIGN': 2, 'C04.SORTED': 3, 'C04.MAXMATCH-SIB': 4, 'C04.DEDUP-WRAP': 6, 'C04.SEAM': 1, 'C04.GCIRC': 2},
+    'floors': {'C04.GRID': 2, 'C04.APPEND-ONLY': 1, 'C04.CELL-AGREE': 2, 'C04.ROT-AGREE': 2, 'C04.MARGIN': 2, 'C04.ALIGN': 2, 'C04.SORTED': 3, 'C04.MAXMATCH-SIB': 4, 'C04.DEDUP-WRAP': 6, 'C04.SEAM': 1, 'C04.GCIRC': 2},
 }
 
 
